@@ -247,6 +247,9 @@ def judge(run, bases, cases, rows, verbose=False):
             ar[c["field"]] = ar.get(c["field"], 0) + 1
         if verbose:
             print("  case %d %s %s = %r: tag=%d spec=%d go=%d  %s" % (cid, c["fixture"], c["path"], bytes_of(c["value"]).decode("latin1"), tag, spec, o["go_verdict"], context(base, c)))
+        if spec:
+            class_violations(run, "fixture %s/%s, %s = %r" % (c["fixture"], "plus" if c["plus"] else "oss", c["path"], bytes_of(c["value"]).decode("latin1")),
+                             o.get("class_violations"), c)
         if not spec:
             run.failing({"kind": "injection", "field": norm_field(c["field"])}, [slim(c)],
                         "structure of the generated configuration changed by an ACCEPTED value of %s (fixture %s/%s, %s = %r, harmless %s %r): %s"
@@ -259,7 +262,7 @@ def judge(run, bases, cases, rows, verbose=False):
                         theorem="correspondence lexgo.go ~ Lex/Lexer.v", found_input=False)
 
 
-def regex_correspondence(run, regs):
+def regex_correspondence(run, regs, sink):
     """X for the hand-transcribed validator regexes: Tmpl.Validators.validator_matches against Go's regexp on every
     one-byte perturbation (all 256 byte values, insertion and replacement, every position) of accepted samples"""
     if not regs:
@@ -293,13 +296,13 @@ def regex_correspondence(run, regs):
             w = r["rows"][j]
             bad.setdefault(name, []).append("sample %r %s at %d: %s byte values disagree" % (
                 bytes_of(w["sample"]).decode("latin1"), "insert" if w["mode"] == 0 else "replace", w["pos"], "name unknown," if v < 0 else v))
-    run.cov["regex_correspondence"] = {"regexes": len(regs), "strings": sum(per.values()), "rows_with_disagreement": sum(len(v) for v in bad.values())}
+    sink.append(("cov", "regex_correspondence", {"regexes": len(regs), "strings": sum(per.values()), "rows_with_disagreement": sum(len(v) for v in bad.values())}))
     for r in regs:
         name = r["name"] + "@" + r["source"]
         b = bad.get(name)
         ok = not b and len(r.get("rows") or []) > 0
-        run.add_obligation(ok, "regex transcription %s agrees with Go regexp on %d one-byte perturbations of accepted samples" % (name, per.get(name, 0)),
-                           "Tmpl.Validators disagrees with the real regular expression: %s" % (b[:4] if b else "no sample of this expression is accepted any more"))
+        sink.append(("obl", ok, "regex transcription %s agrees with Go regexp on %d one-byte perturbations of accepted samples" % (name, per.get(name, 0)),
+                     "Tmpl.Validators disagrees with the real regular expression: %s" % (b[:4] if b else "no sample of this expression is accepted any more")))
 
 
 def translate_templates(run):
@@ -362,6 +365,48 @@ def translate_templates(run):
     return names
 
 
+def class_violations(run, where, viols, case=None):
+    """the tested glue: strings of the template data struct outside the class declared for their field although the
+    structure is intact.  Fields the table itself marks weak (known finding / suspect / doubtful) are counted; a field the
+    table declares solid is a broken tie between generator and class table."""
+    for v in viols or []:
+        val = bytes_of(v["value"]).decode("latin1")
+        if v.get("weak"):
+            d = run.cov.setdefault("class_violations_structure_intact", {})
+            k = "%s (%s; %s)" % (v["key"], v.get("class") or "shape", v["weak"])
+            d[k] = d.get(k, 0) + 1
+        else:
+            run.failing({"kind": "class-violation", "struct_field": v["key"]}, [slim(case)] if case else [],
+                        "%s: the generator put %r into %s, declared %s in harness/.../c06/tab/tab.go (the hypothesis values_ok of "
+                        "C06_structure_invariant is not met for this field; the structure of this rendering is intact)"
+                        % (where, val, v["key"], v.get("class") or "a shape"), theorem="tested glue: values_ok", found_input=False)
+
+
+def class_correspondence(run, rec, sink):
+    """X for the Go copy of the class definitions (tab.InClass) against Classes.in_class_b"""
+    smp = (rec or {}).get("samples") or []
+    if not smp:
+        return
+    body = "From NIC Require Import Tmpl.Syntax Tmpl.Classes.\n"
+    rows = ["(if Bool.eqb (in_class_b (%s) %s) %s then 1%%Z else 0%%Z)" % (x["class"], C.cq_bytes(list(x["value"] or [])), C.cq_bool(x["ok"])) for x in smp]
+    chunks = [rows[i:i + 300] for i in range(0, len(rows), 300)]
+    for ci, ch in enumerate(chunks):
+        body += "Definition results%d : list (list Z) := Eval vm_compute in [[" % ci + ";\n ".join(ch) + "]].\nPrint results%d.\n" % ci
+    path = os.path.join(C.WORK, "cases", "C06_classes_%s.v" % run.tier)
+    C.write_cases_v(path, body)
+    rc, out = C.coqc(path, timeout=900)
+    flat = []
+    for ci in range(len(chunks)):
+        res = C.parse_z_lists(out, "results%d" % ci)
+        if rc != 0 or not res:
+            raise C.TieBroken("coqc could not evaluate the C06 class correspondence file (%s): %s" % (path, out[-1500:]))
+        flat += res[0]
+    bad = [(smp[i]["class"], bytes_of(smp[i]["value"]).decode("latin1"), smp[i]["ok"]) for i, v in enumerate(flat) if v != 1]
+    sink.append(("cov", "class_membership_samples", len(flat)))
+    sink.append(("obl", len(flat) == len(rows) and not bad, "the Go copy of the class definitions (tab.InClass) agrees with Classes.in_class_b on %d strings of real template data" % len(rows),
+                 "disagreements (class, string, go verdict): %s" % bad[:5]))
+
+
 def known_fields(pid="C06"):
     return {k.get("match", {}).get("field") for k in C.load_known() if k.get("property") == pid and k.get("status") == "open"}
 
@@ -391,7 +436,7 @@ def inventory_obligations(run, inv, sums):
 
 
 def check(run):
-    n = 40 if run.tier == "quick" else 100000
+    n = 30 if run.tier == "quick" else 100000
     t0 = time.time()
     translate_templates(run)
     run.log("templates translated and analysed in %.1fs" % (time.time() - t0))
@@ -408,15 +453,26 @@ def check(run):
     cases = [r for r in recs if r["rec"] == "case"]
     sums = [r for r in recs if r["rec"] == "summary"]
     inv = [r for r in recs if r["rec"] == "inventory"][0]
-    regex_correspondence(run, [r for r in recs if r["rec"] == "regex"])
+    side = concurrent.futures.ThreadPoolExecutor(max_workers=2)
+    sink_r, sink_c = [], []
+    fut = [side.submit(regex_correspondence, run, [r for r in recs if r["rec"] == "regex"], sink_r),
+           side.submit(class_correspondence, run, ([r for r in recs if r["rec"] == "classes"] or [None])[0], sink_c)]
     for b in bases.values():
         if b.get("invalid") or b.get("errors") or not b.get("files"):
             run.failing({"kind": "fixture-invalid", "fixture": b["fixture"]}, [],
                         "base fixture %s/%s is no longer accepted / rendered by the implementation: invalid=%s errors=%s files=%d"
                         % (b["fixture"], "plus" if b["plus"] else "oss", b.get("invalid"), b.get("errors"), len(b.get("files") or [])),
                         theorem="harness c06 fixtures", found_input=False)
+        class_violations(run, "base fixture %s/%s" % (b["fixture"], "plus" if b["plus"] else "oss"), b.get("class_violations"))
     t0 = time.time()
     rows = evaluate(bases, cases, run.tier)
+    for f in fut:
+        f.result()
+    for item in sink_r + sink_c:
+        if item[0] == "cov":
+            run.cov[item[1]] = item[2]
+        else:
+            run.add_obligation(item[1], item[2], item[3])
     run.log("rocq evaluated %d cases in %.1fs" % (len(rows), time.time() - t0))
     judge(run, bases, cases, rows)
     tot = {}
